@@ -68,13 +68,23 @@ type vC08Rec struct {
 	chans map[lnwire.ChannelID]int
 	scids map[lnwire.ShortChannelID]int
 
-	// directed scenarios only (see vC08DirectedStop): onAdds runs once
-	// inside CommitCircuits right after circuits were added; CloseCircuit
-	// of the HTLC id holdID parks the calling goroutine until release.
+	// directed scenarios only: onAdds runs once inside CommitCircuits right
+	// after circuits were added; CloseCircuit of the HTLC id holdID parks the
+	// calling goroutine (the switch's htlcForwarder) and NotifyForwardingEvent
+	// parks the calling goroutine (an outgoing link) while parkFwd > 0.  A
+	// parked goroutine hands its release channel to `parked`.
 	onAdds  func()
 	holdID  uint64
-	held    chan struct{}
-	release chan struct{}
+	parkFwd int
+	parked  chan chan struct{}
+}
+
+// park blocks the calling goroutine until the test closes the channel it
+// receives from r.parked.
+func (r *vC08Rec) park() {
+	rel := make(chan struct{})
+	r.parked <- rel
+	<-rel
 }
 
 func (r *vC08Rec) add(e ...any) {
@@ -259,6 +269,15 @@ func (h *vC08Notifier) NotifyForwardingEvent(key HtlcKey, info HtlcInfo,
 	ic, ii, oc, oi := h.key(key)
 	h.r.add("n", "fwd", int(et), ic, ii, oc, oi, uint64(info.IncomingAmt),
 		uint64(info.OutgoingAmt))
+	h.r.mu.Lock()
+	park := h.r.parkFwd > 0
+	if park {
+		h.r.parkFwd--
+	}
+	h.r.mu.Unlock()
+	if park {
+		h.r.park()
+	}
 }
 
 func (h *vC08Notifier) NotifyLinkFailEvent(key HtlcKey, info HtlcInfo,
@@ -348,15 +367,10 @@ func (c *vC08Circuits) OpenCircuits(ks ...Keystone) error {
 
 func (c *vC08Circuits) CloseCircuit(outKey CircuitKey) (*PaymentCircuit, error) {
 	c.r.mu.Lock()
-	held, release := c.r.held, c.r.release
-	park := held != nil && outKey.HtlcID == c.r.holdID
-	if park {
-		c.r.held = nil
-	}
+	park := c.r.holdID != 0 && outKey.HtlcID == c.r.holdID
 	c.r.mu.Unlock()
 	if park {
-		close(held)
-		<-release
+		c.r.park()
 	}
 	pc, err := c.CircuitMap.CloseCircuit(outKey)
 	es := ""
@@ -762,19 +776,22 @@ func (v *vC08Net) restartBob() error {
 // ---- payments ---------------------------------------------------------------------
 
 type vC08Pay struct {
-	Idx     int    `json:"idx"`
-	Dir     string `json:"dir"`  // "AC" or "CA"
-	Kind    string `json:"kind"` // ok unknown wrongamt hold_settle hold_cancel lowfee belowmin big badroute
-	Amt     uint64 `json:"amt"`  // amount the forwarder is asked to forward (msat)
-	HtlcAmt uint64 `json:"htlc_amt"`
-	InChan  int    `json:"in_chan"`
-	OutChan int    `json:"out_chan"`
-	Hash    string `json:"hash"`
-	Pre     string `json:"pre"`
-	Result  string `json:"result"` // settled failed send_err timeout
-	Err     string `json:"err"`
-	Invoice string `json:"invoice"`
-	Delay   int    `json:"delay_ms"`
+	Idx          int    `json:"idx"`
+	Dir          string `json:"dir"`  // "AC" or "CA"
+	Kind         string `json:"kind"` // ok unknown wrongamt hold_settle hold_cancel lowfee belowmin big badroute
+	Amt          uint64 `json:"amt"`  // amount the forwarder is asked to forward (msat)
+	HtlcAmt      uint64 `json:"htlc_amt"`
+	InChan       int    `json:"in_chan"`
+	OutChan      int    `json:"out_chan"`
+	Hash         string `json:"hash"`
+	Pre          string `json:"pre"`
+	Result       string `json:"result"` // settled failed send_err timeout
+	Err          string `json:"err"`
+	Invoice      string `json:"invoice"`
+	InvoiceFinal string `json:"invoice_final"` // after the closing restarts
+	lookup       func() string
+	Delay        int  `json:"delay_ms"`
+	Pair         bool `json:"pair,omitempty"`
 }
 
 type vC08End struct {
@@ -800,6 +817,8 @@ type vC08Case struct {
 	Circuits     [][]int        `json:"circuits"` // per node [pending, open]
 	Dropped      int            `json:"dropped"`
 	Faults       []*vC08Fault   `json:"faults"`
+	End1         []vC08End      `json:"end1,omitempty"`
+	Circuits1    [][]int        `json:"circuits1,omitempty"`
 	LinkFailures int            `json:"link_failures"`
 	WallMs       int64          `json:"wall_ms"`
 	Extra        map[string]any `json:"extra,omitempty"`
@@ -916,6 +935,15 @@ func vC08Launch(v *vC08Net, p *vC08Pay, rg *vrng) (func(), error) {
 		}
 	}
 
+	if p.Kind != "unknown" {
+		p.lookup = func() string {
+			inv, err := receiver.registry.LookupInvoice(context.Background(), rhash)
+			if err != nil {
+				return ""
+			}
+			return inv.State.String()
+		}
+	}
 	return func() {
 		time.Sleep(time.Duration(p.Delay) * time.Millisecond)
 		if err := sender.htlcSwitch.SendHTLC(firstHop, pid, htlc); err != nil {
@@ -1171,8 +1199,9 @@ func vC08Setup(t *testing.T, rg *vrng) *vC08Net {
 		return &r, nil
 	}
 	rec := &vC08Rec{
-		chans: map[lnwire.ChannelID]int{},
-		scids: map[lnwire.ShortChannelID]int{},
+		chans:  map[lnwire.ChannelID]int{},
+		scids:  map[lnwire.ShortChannelID]int{},
+		parked: make(chan chan struct{}, 8),
 	}
 	circuitsOpt := func(alice, bob, carol *mockServer) {
 		bob.htlcSwitch.cfg.HtlcNotifier = &vC08Notifier{r: rec}
@@ -1203,14 +1232,49 @@ func vC08Setup(t *testing.T, rg *vrng) *vC08Net {
 }
 
 // finish fills in the end state of a case once the payments are done.
-func (v *vC08Net) finish(c *vC08Case, start time.Time) {
+func (v *vC08Net) finish(c *vC08Case, start time.Time, closing bool) {
 	n, rec := v.n, v.rec
+	circuits := func() [][]int {
+		var o [][]int
+		for _, s := range []*mockServer{n.aliceServer, n.bobServer, n.carolServer} {
+			o = append(o, []int{
+				s.htlcSwitch.circuits.NumPending(), s.htlcSwitch.circuits.NumOpen(),
+			})
+		}
+		return o
+	}
 	c.Quiescent, c.Why = vC08Quiet(n, rec)
 	c.End = vC08Ends(n, rec)
-	for _, s := range []*mockServer{n.aliceServer, n.bobServer, n.carolServer} {
-		c.Circuits = append(c.Circuits, []int{
-			s.htlcSwitch.circuits.NumPending(), s.htlcSwitch.circuits.NumOpen(),
-		})
+	c.Circuits = circuits()
+
+	// Closing step: once everything is resolved, every link is restarted
+	// (both channels re-established, then Bob's whole switch restarted on
+	// its database) and the end state is taken again: nothing may move any
+	// more.  This is what exposes forwarding packages that would be replayed
+	// and circuits / mailbox entries that should be gone.
+	if closing && c.Quiescent && vEnvInt("VERIF_C08_NOCLOSING", 0) == 0 {
+		c.End1, c.Circuits1 = c.End, c.Circuits
+		rec.add("x", "closing")
+		err := v.flap(1)
+		if err == nil {
+			err = v.flap(2)
+		}
+		if err == nil {
+			v.silent(250 * time.Millisecond)
+			err = v.restartBob()
+		}
+		if err != nil {
+			v.t.Fatalf("closing restarts: %v", err)
+		}
+		v.silent(250 * time.Millisecond)
+		c.Quiescent, c.Why = vC08Quiet(n, rec)
+		c.End = vC08Ends(n, rec)
+		c.Circuits = circuits()
+		for _, p := range c.Pays {
+			if p.lookup != nil {
+				p.InvoiceFinal = p.lookup()
+			}
+		}
 	}
 	rec.mu.Lock()
 	c.Events = append([][]any(nil), rec.ev...)
@@ -1253,6 +1317,34 @@ func TestVerifFwdPkgReplay(t *testing.T) {
 	vC08Probe(t, out)
 }
 
+// parkForwarder makes the switch's htlcForwarder goroutine busy: it is handed a
+// fail packet for an unknown circuit and parked inside CircuitMap.CloseCircuit.
+// Closing the returned channel lets it go on (the packet is then dropped).
+func (v *vC08Net) parkForwarder(t *testing.T) chan struct{} {
+	v.rec.mu.Lock()
+	v.rec.holdID = 0xdeadbeef
+	v.rec.mu.Unlock()
+	errs := make(chan error, 1)
+	go func() {
+		_ = v.n.bobServer.htlcSwitch.routeAsync(&htlcPacket{
+			outgoingChanID: v.n.secondBobChannelLink.ShortChanID(),
+			outgoingHTLCID: 0xdeadbeef,
+			htlc:           &lnwire.UpdateFailHTLC{},
+		}, errs, v.n.bobServer.quit)
+	}()
+	return v.waitParked(t)
+}
+
+func (v *vC08Net) waitParked(t *testing.T) chan struct{} {
+	select {
+	case rel := <-v.rec.parked:
+		return rel
+	case <-time.After(10 * time.Second):
+		t.Fatalf("nothing was parked")
+		return nil
+	}
+}
+
 // vC08DirectedStop is the DIRECTED scenario for a peer disconnect in the
 // middle of forwarding (no randomness, no retries): one payment Alice->Carol.
 // Schedule at Bob:
@@ -1278,19 +1370,7 @@ func vC08DirectedStop(t *testing.T) *vC08Case {
 	bob := n.bobServer.htlcSwitch
 
 	// 1. park the forwarder
-	held, release := make(chan struct{}), make(chan struct{})
-	rec.mu.Lock()
-	rec.holdID, rec.held, rec.release = 0xdeadbeef, held, release
-	rec.mu.Unlock()
-	errs := make(chan error, 1)
-	if err := bob.routeAsync(&htlcPacket{
-		outgoingChanID: n.secondBobChannelLink.ShortChanID(),
-		outgoingHTLCID: 0xdeadbeef,
-		htlc:           &lnwire.UpdateFailHTLC{},
-	}, errs, nil); err != nil {
-		t.Fatal(err)
-	}
-	<-held
+	release := v.parkForwarder(t)
 
 	// 3. (armed now, runs inside CommitCircuits of step 2)
 	link1 := n.firstBobChannelLink
@@ -1328,7 +1408,7 @@ func vC08DirectedStop(t *testing.T) *vC08Case {
 	}
 	wg.Wait()
 	c.Faults = []*vC08Fault{{Kind: "flap", Chan: 1, Fired: "directed"}}
-	v.finish(c, start)
+	v.finish(c, start, true)
 
 	// What repairs a stuck HTLC?  Restart the whole switch and look again.
 	if !c.Quiescent {
@@ -1343,6 +1423,173 @@ func vC08DirectedStop(t *testing.T) *vC08Case {
 	return c
 }
 
+// vC08DirectedBatchStop (scenario A): a peer disconnect in the middle of a
+// BATCH.  Two payments Alice->Carol whose adds reach Bob in one commitment (one
+// forwarding package, one ForwardPackets call); the first is held by Carol so
+// that its outgoing HTLC stays alive.  Schedule at Bob:
+//  1. the forwarder is parked (S1);
+//  2. the incoming link commits both circuits and blocks handing packet #0 to
+//     the forwarder; a second parking packet S2 queues up behind it;
+//  3. S1 is released: the forwarder takes #0 (FIFO), hands it to the outgoing
+//     link (outgoing HTLC added), then takes S2 and is parked again, so the
+//     incoming link is blocked handing over #1;
+//  4. the incoming link is stopped (peer disconnect): #1 is abandoned;
+//  5. forwarder released, channel 1 re-established: the package is replayed.
+//
+// #0 must NOT be handed to the outgoing link a second time; #1 must be
+// forwarded (once).  Returns false if the two adds did not share a package.
+func vC08DirectedBatchStop(t *testing.T, attempt int) (*vC08Case, bool) {
+	start := time.Now()
+	rg := vNewRng(79 + uint64(attempt))
+	c := &vC08Case{Case: 1002, Fault: "probe_batch_stop", Extra: map[string]any{}}
+	v := vC08Setup(t, rg.fork(501))
+	defer func() { v.n.stop() }()
+	c.Init = vC08Ends(v.n, v.rec)
+	rec, n := v.rec, v.n
+	bob := n.bobServer.htlcSwitch
+	carol := n.carolServer.registry
+
+	rel1 := v.parkForwarder(t) // 1.
+	link1 := n.firstBobChannelLink
+	committed := make(chan struct{})
+	rec.mu.Lock()
+	rec.onAdds = func() { close(committed) }
+	rec.mu.Unlock()
+
+	pays := []*vC08Pay{
+		{Idx: 0, Kind: "hold_manual", Dir: "AC", InChan: 1, OutChan: 2, Amt: 2000000},
+		{Idx: 1, Kind: "ok", Dir: "AC", InChan: 1, OutChan: 2, Amt: 1000000},
+	}
+	c.Pays = pays
+	var wg sync.WaitGroup
+	for i, p := range pays {
+		run, err := vC08Launch(v, p, rg.fork(uint64(1000+i)))
+		if err != nil {
+			t.Fatal(err)
+		}
+		wg.Add(1)
+		go func() { defer wg.Done(); run() }()
+		time.Sleep(4 * time.Millisecond)
+	}
+	select { // 2.
+	case <-committed:
+	case <-time.After(10 * time.Second):
+		t.Fatalf("no circuits committed")
+	}
+	time.Sleep(100 * time.Millisecond) // the link now blocks in routeAsync(#0)
+	errs := make(chan error, 1)
+	go func() {
+		_ = bob.routeAsync(&htlcPacket{
+			outgoingChanID: n.secondBobChannelLink.ShortChanID(),
+			outgoingHTLCID: 0xdeadbeef,
+			htlc:           &lnwire.UpdateFailHTLC{},
+		}, errs, n.bobServer.quit)
+	}()
+	time.Sleep(100 * time.Millisecond) // S2 queued behind #0
+	close(rel1)                        // 3.
+	rel2 := v.waitParked(t)
+	v.silent(200 * time.Millisecond) // #0 was added by the outgoing link
+	stopped := make(chan struct{})   // 4.
+	go func() {
+		bob.RemoveLink(link1.ChanID())
+		close(stopped)
+	}()
+	select {
+	case <-stopped:
+	case <-time.After(10 * time.Second):
+		t.Fatalf("incoming link was never stopped")
+	}
+	rec.mu.Lock()
+	rec.holdID = 0
+	rec.mu.Unlock()
+	close(rel2) // 5.
+	if err := v.flap(1); err != nil {
+		t.Fatal(err)
+	}
+	v.silent(500 * time.Millisecond)
+	hb, _ := hex.DecodeString(pays[0].Pre)
+	var pre lntypes.Preimage
+	copy(pre[:], hb)
+	if err := carol.SettleHodlInvoice(context.Background(), pre); err != nil {
+		t.Logf("settle hold invoice: %v", err)
+	}
+	wg.Wait()
+	c.Faults = []*vC08Fault{{Kind: "flap", Chan: 1, Fired: "directed"}}
+	v.finish(c, start, true)
+	for _, e := range c.Events {
+		if e[0] == "c" && e[1] == "commit" {
+			adds := e[2].([][]any)
+			return c, len(adds) == 2
+		}
+	}
+	return c, false
+}
+
+// vC08DirectedBounce (scenario B): a forward that the switch admitted is
+// bounced by the OUTGOING LINK.  A small payment X parks Bob's outgoing link
+// (inside NotifyForwardingEvent, right after its AddHTLC); two payments of 60%
+// of the channel's capacity each pass the switch's bandwidth check and wait in
+// the link's mailbox; the link is released: #1 is added (Carol fails it:
+// unknown hash, the capacity is free again), #2 is refused by AddHTLC ->
+// mailbox FailAdd -> FailCircuit -> failed back upstream.  After quiescence
+// the closing step restarts the incoming link, the other link and the whole
+// switch: nothing may move any more (in particular #2, whose invoice is still
+// open at Carol, must not be forwarded).
+func vC08DirectedBounce(t *testing.T) *vC08Case {
+	start := time.Now()
+	rg := vNewRng(80)
+	c := &vC08Case{Case: 1003, Fault: "probe_bounce", Extra: map[string]any{}}
+	v := vC08Setup(t, rg.fork(501))
+	defer func() { v.n.stop() }()
+	c.Init = vC08Ends(v.n, v.rec)
+	rec := v.rec
+
+	pays := []*vC08Pay{
+		{Idx: 0, Kind: "ok", Dir: "AC", InChan: 1, OutChan: 2, Amt: 100000},
+		{Idx: 1, Kind: "unknown", Dir: "AC", InChan: 1, OutChan: 2, Amt: 1200000000},
+		{Idx: 2, Kind: "ok", Dir: "AC", InChan: 1, OutChan: 2, Amt: 1200000000},
+	}
+	c.Pays = pays
+	var wg sync.WaitGroup
+	launch := func(p *vC08Pay) {
+		run, err := vC08Launch(v, p, rg.fork(uint64(1000+p.Idx)))
+		if err != nil {
+			t.Fatal(err)
+		}
+		wg.Add(1)
+		go func() { defer wg.Done(); run() }()
+	}
+	rec.mu.Lock()
+	rec.parkFwd = 1
+	rec.mu.Unlock()
+	launch(pays[0])
+	rel := v.waitParked(t) // Bob's outgoing link is parked after adding X
+	launch(pays[1])
+	time.Sleep(4 * time.Millisecond)
+	launch(pays[2])
+	// both big adds are locked in on channel 1, admitted by the switch and
+	// delivered to the mailbox of the parked link
+	for deadline := time.Now().Add(8 * time.Second); time.Now().Before(deadline); {
+		rec.mu.Lock()
+		k := 0
+		for _, e := range rec.ev {
+			if e[0] == "c" && e[1] == "commit" {
+				k += len(e[2].([][]any))
+			}
+		}
+		rec.mu.Unlock()
+		if k >= 3 {
+			break
+		}
+		time.Sleep(10 * time.Millisecond)
+	}
+	time.Sleep(150 * time.Millisecond)
+	close(rel)
+	wg.Wait()
+	v.finish(c, start, true)
+	return c
+}
+
 func vC08Probe(t *testing.T, out *vWriter) {
 	pt, qt := vC08PayTimeout, vC08QuietTimeout
 	vC08PayTimeout, vC08QuietTimeout = 6*time.Second, 4*time.Second
@@ -1353,6 +1600,22 @@ func vC08Probe(t *testing.T, out *vWriter) {
 		vC08PayTimeout, vC08QuietTimeout = 6*time.Second, 4*time.Second
 		out.emit(c)
 	})
+	t.Run("directed_bounce", func(t *testing.T) {
+		out.emit(vC08DirectedBounce(t))
+	})
+	for attempt := 0; attempt < 4; attempt++ {
+		var (
+			c  *vC08Case
+			ok bool
+		)
+		t.Run(fmt.Sprintf("directed_batch_stop%d", attempt), func(t *testing.T) {
+			c, ok = vC08DirectedBatchStop(t, attempt)
+		})
+		if c != nil && (ok || attempt == 3) {
+			out.emit(c)
+			break
+		}
+	}
 	for attempt := 0; attempt < 4; attempt++ {
 		var (
 			c  *vC08Case
@@ -1445,7 +1708,7 @@ func vC08Directed(t *testing.T, attempt int) (*vC08Case, bool) {
 	wg.Wait()
 	c.Faults = []*vC08Fault{{Kind: "flap", Chan: 2, Fired: "directed"},
 		{Kind: "flap", Chan: 2, Fired: "directed"}}
-	v.finish(c, start)
+	v.finish(c, start, true)
 	for _, e := range c.Events {
 		if e[0] == "d" && e[1] == "carol" && e[2] == 2 {
 			hs := e[4].([]string)
@@ -1506,6 +1769,30 @@ func vC08Batch(t *testing.T, rg *vrng, idx int) *vC08Case {
 			run()
 		}()
 	}
+	// In half of the batches: a PAIR of payments Alice->Carol launched together
+	// whose amounts each fit into Bob's side of channel 2 but not both, so that
+	// (when both pass the switch's bandwidth check before the outgoing link has
+	// added the first) the second is bounced by the OUTGOING LINK itself
+	// (AddHTLC error -> mailbox FailAdd -> FailCircuit).
+	if rg.intn(2) == 0 {
+		kinds := []string{"ok", "ok", "unknown", "hold_cancel", "hold_settle"}
+		delay := rg.intn(4) * rg.intn(60)
+		for j := 0; j < 2; j++ {
+			p := &vC08Pay{Idx: np + j, Kind: kinds[rg.intn(len(kinds))], Dir: "AC",
+				InChan: 1, OutChan: 2, Pair: true, Delay: delay,
+				Amt: uint64(rg.rng(1020000, 1450000)) * 1000}
+			run, err := vC08Launch(v, p, rg.fork(uint64(2000+j)))
+			if err != nil {
+				t.Fatalf("prepare payment: %v", err)
+			}
+			c.Pays = append(c.Pays, p)
+			wg.Add(1)
+			go func() {
+				defer wg.Done()
+				run()
+			}()
+		}
+	}
 	wg.Wait()
 	close(stop)
 	if err := <-done; err != nil {
@@ -1513,7 +1800,7 @@ func vC08Batch(t *testing.T, rg *vrng, idx int) *vC08Case {
 	}
 	c.Faults = plan
 	_ = rec
-	v.finish(c, start)
+	v.finish(c, start, true)
 	return c
 }
 
